@@ -850,10 +850,148 @@ func ReturnCases(fn *ssa.Function) []RetCase {
 }
 
 // TermEdges returns the If edges whose (negation-stripped) condition, rendered symbolically, satisfies match; the edge
-// returned is the one on which the condition has truth value `want`.
+// returned is the one on which the matched condition has truth value `want`.
+// Comparisons are matched up to the way they were written: `(a == b)` also matches a condition written `b == a`,
+// `a != b` (with the opposite edge) or `b != a`; likewise for the order relations; and for an unsigned x, `x > 0` and
+// `x != 0` (resp. `x == 0` and `x <= 0`) are the same fact.
 func TermEdges(fn *ssa.Function, sx *Symx, match func(s string, t *Term) bool, want bool) []IfEdge {
-	return IfEdgesWhere(fn, func(v ssa.Value) bool {
-		t := sx.Of(v)
-		return match(t.String(), t)
-	}, want)
+	var out []IfEdge
+	for _, same := range []bool{true, false} {
+		same := same
+		w := want
+		if !same {
+			w = !want
+		}
+		out = append(out, IfEdgesWhere(fn, func(v ssa.Value) bool {
+			t := sx.Of(v)
+			for _, r := range renderings(v, sx) {
+				if r.same == same && match(r.s, t) {
+					return true
+				}
+			}
+			return false
+		}, w)...)
+	}
+	return out
+}
+
+type rendering struct {
+	s    string
+	same bool // s has the truth value of the condition (false: the opposite)
+}
+
+func renderings(v ssa.Value, sx *Symx) []rendering {
+	out := []rendering{{sx.Of(v).String(), true}}
+	b, ok := v.(*ssa.BinOp)
+	if !ok {
+		return out
+	}
+	swap := map[token.Token]token.Token{token.LSS: token.GTR, token.GTR: token.LSS, token.LEQ: token.GEQ, token.GEQ: token.LEQ, token.EQL: token.EQL, token.NEQ: token.NEQ}
+	neg := map[token.Token]token.Token{token.LSS: token.GEQ, token.GEQ: token.LSS, token.GTR: token.LEQ, token.LEQ: token.GTR, token.EQL: token.NEQ, token.NEQ: token.EQL}
+	if _, isCmp := swap[b.Op]; !isCmp {
+		return out
+	}
+	x, y := sx.Of(b.X).String(), sx.Of(b.Y).String()
+	add := func(l string, op token.Token, r string, same bool) {
+		out = append(out, rendering{"(" + l + " " + op.String() + " " + r + ")", same})
+	}
+	type form struct {
+		l    string
+		op   token.Token
+		r    string
+		same bool
+	}
+	forms := []form{{x, b.Op, y, true}, {y, swap[b.Op], x, true}, {x, neg[b.Op], y, false}, {y, swap[neg[b.Op]], x, false}}
+	// unsigned comparisons with zero
+	isUnsigned := func(v ssa.Value) bool {
+		bt, ok := v.Type().Underlying().(*types.Basic)
+		return ok && bt.Info()&types.IsUnsigned != 0
+	}
+	var extra []form
+	for _, f := range forms {
+		var u ssa.Value
+		switch {
+		case f.r == "const(0)" && f.l == x:
+			u = b.X
+		case f.r == "const(0)" && f.l == y:
+			u = b.Y
+		}
+		if u == nil || !isUnsigned(u) {
+			continue
+		}
+		switch f.op {
+		case token.GTR:
+			extra = append(extra, form{f.l, token.NEQ, f.r, f.same}, form{f.r, token.NEQ, f.l, f.same}, form{f.l, token.EQL, f.r, !f.same}, form{f.r, token.EQL, f.l, !f.same})
+		case token.NEQ:
+			extra = append(extra, form{f.l, token.GTR, f.r, f.same}, form{f.r, token.LSS, f.l, f.same}, form{f.l, token.LEQ, f.r, !f.same}, form{f.r, token.GEQ, f.l, !f.same})
+		case token.EQL:
+			extra = append(extra, form{f.l, token.LEQ, f.r, f.same}, form{f.r, token.GEQ, f.l, f.same}, form{f.l, token.GTR, f.r, !f.same}, form{f.r, token.LSS, f.l, !f.same})
+		case token.LEQ:
+			extra = append(extra, form{f.l, token.EQL, f.r, f.same}, form{f.r, token.EQL, f.l, f.same}, form{f.l, token.NEQ, f.r, !f.same}, form{f.r, token.NEQ, f.l, !f.same})
+		}
+	}
+	seen := map[string]bool{out[0].s: true}
+	for _, f := range append(forms, extra...) {
+		k := fmt.Sprintf("(%s %s %s)|%v", f.l, f.op, f.r, f.same)
+		if seen[k] {
+			continue
+		}
+		seen[k] = true
+		add(f.l, f.op, f.r, f.same)
+	}
+	return out
+}
+
+// RelEdges returns the If edges on which `X rel Y` is known to hold, whatever way the comparison was written:
+// X rel Y (true edge), Y rel' X (true edge, operands swapped), and the false edges of the negated comparisons.
+// rel is one of token.LSS, LEQ, GTR, GEQ, EQL, NEQ.
+func RelEdges(fn *ssa.Function, isX, isY func(ssa.Value) bool, rel token.Token) []IfEdge {
+	swap := map[token.Token]token.Token{token.LSS: token.GTR, token.GTR: token.LSS, token.LEQ: token.GEQ, token.GEQ: token.LEQ, token.EQL: token.EQL, token.NEQ: token.NEQ}
+	neg := map[token.Token]token.Token{token.LSS: token.GEQ, token.GEQ: token.LSS, token.GTR: token.LEQ, token.LEQ: token.GTR, token.EQL: token.NEQ, token.NEQ: token.EQL}
+	var out []IfEdge
+	for _, want := range []bool{true, false} {
+		want := want
+		out = append(out, IfEdgesWhere(fn, func(v ssa.Value) bool {
+			b, ok := v.(*ssa.BinOp)
+			if !ok {
+				return false
+			}
+			op := b.Op
+			if !want {
+				op = neg[op] // on the false edge the negated relation holds
+			}
+			if isX(b.X) && isY(b.Y) && op == rel {
+				return true
+			}
+			if isX(b.Y) && isY(b.X) && swap[op] == rel {
+				return true
+			}
+			return false
+		}, want)...)
+	}
+	return out
+}
+
+// IsConstInt matches an integer constant of the given value.
+func IsConstInt(k int64) func(ssa.Value) bool {
+	return func(v ssa.Value) bool { n, ok := ConstInt(v); return ok && n == k }
+}
+
+// IsValue matches exactly v (conversions stripped).
+func IsValue(v ssa.Value) func(ssa.Value) bool {
+	return func(x ssa.Value) bool {
+		for {
+			if x == v {
+				return true
+			}
+			switch c := x.(type) {
+			case *ssa.Convert:
+				x = c.X
+			case *ssa.ChangeType:
+				x = c.X
+			default:
+				return false
+			}
+		}
+	}
 }
